@@ -157,4 +157,12 @@ class C12c(Obligation):
             ctx.check(len(during) == 1 and ctx.eq(during[0], search), 'the search runs under the requested path')
 
 
-OBLIGATIONS = [C12a, C12b, C12c]
+from obligations.c20 import C20b  # noqa: E402
+
+
+class C12d(C20b):
+    id = 'C12.d'
+    title = 'computing a Script\'s search path never widens the whitelist of directories compiled modules may be imported from'
+
+
+OBLIGATIONS = [C12a, C12b, C12c, C12d]
